@@ -470,7 +470,7 @@ fn guts_strategy(_tier: Tier) -> BoxedStrategy<GCase> {
     prop_oneof![
         6 => (gen::counter_lattice(), prop_oneof![2 => 0u16..=1024, 1 => crate::gen::select(vec![0u16, 1, 63, 64, 65, 128, 1023, 1024])], gen::content(), prop::collection::vec(hist::size(1024), 0..4), prop::bool::weighted(0.25))
             .prop_map(|(counter, len, content, splits, is_root)| GCase::Chunk { counter, len, content, splits, is_root }),
-        3 => (any::<[u8; 32]>(), any::<[u8; 32]>(), any::<bool>()).prop_map(|(left, right, is_root)| GCase::Parent { left, right, is_root }),
+        3 => (gen::key32(), gen::key32(), any::<bool>()).prop_map(|(left, right, is_root)| GCase::Parent { left, right, is_root }),
         1 => (gen::len_lattice(40_000).prop_map(|l| l as u32), gen::content(), 0u16..=500).prop_map(|(len, content, out)| GCase::OneShot { len, content, out }),
     ]
     .boxed()
